@@ -316,3 +316,52 @@ package route
 //@   ensures[usable; C14] err == nil ==> r != nil
 //@   loop 1:
 //@     invariant[shards] 0 <= i && i <= cfg.Concurrency && cfg.Concurrency > 0 && cfg.BufSize >= 0 && r != nil && len(r.in) == cfg.Concurrency && r.wg != nil && r.shutdown != nil
+
+// ---------------------------------------------------------------- modRoute (C14, C20): unknown options are refused, nothing is published on error
+//@ func (route *baseRoute) update(opts map[string]string, extendConfig baseCfgExtender) (err error)
+//@   property C14,C20
+//@   requires !route.Mutex.held && opts != nil && isConfType(baseConf(route))
+//@   modifies *
+//@   ensures[unknown_option_refused; C20] (exists k bytes :: has(opts, k) && k != "prefix" && k != "notPrefix" && k != "sub" && k != "notSub" && k != "regex" && k != "notRegex") ==> err != nil
+//@   ensures[nothing_published_on_error; C20] err != nil ==> route.config.valref == old(route.config.valref) && route.config.valtag == old(route.config.valtag)
+//@   ensures[unlocked] !route.Mutex.held
+//@   loop 1:
+//@     invariant[seen] route.Mutex.held && route.config.valref == old(route.config.valref) && route.config.valtag == old(route.config.valtag) && match != nil
+//@     invariant[only_known] forall k bytes :: #visited[k] ==> (k == "prefix" || k == "notPrefix" || k == "sub" || k == "notSub" || k == "regex" || k == "notRegex")
+//@
+//@ // every function used as a baseCfgExtender returns a usable configuration that embeds the one it was given
+//@ func baseCfgExtender(bc baseConfig) (c Config)
+//@   fresh
+//@   ensures c != nil && isConfType(c) && confDests(c) == bc.dests
+//@ func baseConfigExtender(bc baseConfig) (c Config)
+//@   ensures[extender_contract] c != nil && isConfType(c) && confDests(c) == bc.dests
+//@ func consistentHashingConfigExtender(bc baseConfig) (c Config)
+//@   modifies *
+//@   ensures[extender_contract] c != nil && isConfType(c) && confDests(c) == bc.dests
+
+// ---------------------------------------------------------------- destinations of a route change at run time (C18)
+// Same discipline as for the table: one new configuration is published under the route's mutex; the destination
+// list that was published before is never written, so a dispatcher that loaded it keeps a consistent list.
+//@ spec routeDests(route *baseRoute) := confDests(baseConf(*route))
+//@ func (route *baseRoute) delDestination(index int, extendConfig baseCfgExtender) (err error)
+//@   property C18,C14
+//@   requires !route.Mutex.held && isConfType(baseConf(*route)) && index >= 0 && (forall j int :: 0 <= j && j < len(routeDests(route)) ==> routeDests(route)[j] != nil)
+//@   let d0 := routeDests(route)
+//@   let n  := len(routeDests(route))
+//@   modifies *
+//@   ensures[unlocked] !route.Mutex.held
+//@   ensures[beyond_end] index >= n ==> err != nil && route.config.valref == old(route.config.valref)
+//@   ensures[removed; C18] index < n ==> err == nil && len(routeDests(route)) == n - 1
+//@        && (forall j int :: 0 <= j && j < index ==> routeDests(route)[j] == old(d0[j]))
+//@        && (forall j int :: index <= j && j < n - 1 ==> routeDests(route)[j] == old(d0[j + 1]))
+//@   ensures[snapshot_immutable; C18] len(d0) == n && (forall j int :: 0 <= j && j < n ==> d0[j] == old(d0[j]))
+//@
+//@ func (route *baseRoute) addDestination(dest *dest.Destination, extendConfig baseCfgExtender)
+//@   property C18
+//@   requires !route.Mutex.held && isConfType(baseConf(*route)) && dest != nil
+//@   let d0 := routeDests(route)
+//@   let n  := len(routeDests(route))
+//@   modifies *
+//@   ensures[unlocked] !route.Mutex.held
+//@   ensures[appended; C18] len(routeDests(route)) == n + 1 && routeDests(route)[n] == dest && (forall j int :: 0 <= j && j < n ==> routeDests(route)[j] == old(d0[j]))
+//@   ensures[snapshot_immutable; C18] len(d0) == n && (forall j int :: 0 <= j && j < n ==> d0[j] == old(d0[j]))
